@@ -13,3 +13,5 @@ if [ ! -x "$V/bin/python" ] || ! "$V/bin/python" -c 'import z3, six' 2>/dev/null
     PIP_NO_INDEX=1 "$V/bin/python" -m pip install -q --no-index --find-links /opt/veriftools/wheels z3-solver cvc5 >/dev/null
 fi
 "$V/bin/python" -c 'import z3, six; print("overlay venv ok: z3", z3.get_version_string())'
+# engine sanity: the repository's own tests with every productmd function executed by the psx interpreter
+PYTHONPATH=/repo "$V/bin/python" psx/tests_under_interp.py 2>/dev/null | tail -2 || true
